@@ -806,8 +806,8 @@ def parse_container(data, decode_records=True):
         if bytes(data[pos:pos + 16]) != p.sync:
             raise RefError("sync marker mismatch")
         pos += 16
-        payload = _decompress(p.codec, comp, p.notes)
         if decode_records:
+            payload = _decompress(p.codec, comp, p.notes)
             q = 0
             for _ in range(cnt):
                 v, q = decode(node, payload, q)
